@@ -469,12 +469,48 @@ def mk_field(Field, V, E, data):
 
 
 def to_scaled(arr, scale):
+    """exact integers value*scale (integer and bool dtypes are read without going through float)."""
+    arr = np.asarray(arr)
     out = []
-    for x in np.asarray(arr, dtype=float).ravel():
+    if arr.dtype.kind in "iub":
+        return [int(x) * scale for x in arr.ravel()]
+    for x in arr.ravel():
         f = Fraction(*float(x).as_integer_ratio()) * scale
         assert f.denominator == 1, (x, scale)
         out.append(int(f))
     return out
+
+
+INT_DTYPES = ["uint8", "uint16", "uint32", "uint64", "int8", "int16", "int32", "int64"]
+
+
+def dtype_kind(dt):
+    k = np.dtype(dt).kind
+    return {"u": "unsigned", "i": "signed", "b": "bool", "f": "float"}[k]
+
+
+def dtype_palette(dt):
+    """values at the ends of the dtype's range (where negation or +1 overflows) and around zero."""
+    if dt == "bool":
+        return [0, 1]
+    ii = np.iinfo(dt)
+    if ii.min == 0:
+        return [0, 0, 0, 1, 2, 5, ii.max // 2, ii.max - 1, ii.max, ii.max]
+    return [ii.min, ii.min, ii.min + 1, -2, -1, 0, 0, 1, ii.max - 1, ii.max, ii.max]
+
+
+def mk_data(ints, scale, dt):
+    """(V, dim) array of dtype dt holding ints/scale exactly; second value: the same numbers as float64 (None if not exact)."""
+    if np.dtype(dt).kind in "iub":
+        assert scale == 1
+        data = np.array(ints, dtype=dt)
+        assert [[int(x) for x in r] for r in data] == ints
+        exact = all(float(x) == x and abs(x) <= 2 ** 63 for r in ints for x in r) and all(int(float(x)) == x for r in ints for x in r)
+        return data, (np.array(ints, dtype=np.float64) if exact else None)
+    f = np.array(ints, dtype=np.float64) / scale
+    data = f.astype(dt)
+    assert np.array_equal(data.astype(np.float64), f)
+    return data, f
 
 
 def graph_kind(V, E):
@@ -511,7 +547,7 @@ def morphology_section(ck):
                 if m:
                     E += [(a, b), (b, a)]
             for vals in itertools.product(range(3), repeat=V):
-                cases.append((V, E, np.array(vals, dtype=float).reshape(V, 1), 1, "float64", "exhaustive"))
+                cases.append((V, E, [[v] for v in vals], 1, "float64", "exhaustive"))
     nrand = ck.n(150, 1200)
     for k in range(nrand):
         V = int(rng.integers(2, 13))
@@ -530,32 +566,72 @@ def morphology_section(ck):
             E = list(dict.fromkeys(E + [(i, (i + 1) % V) for i in range(V)] + [((i + 1) % V, i) for i in range(V)]))
         dim = int(rng.integers(1, 4))
         levels = int(rng.choice([2, 3, 6, 50]))
-        data = rng.integers(-levels, levels + 1, (V, dim)).astype(float)
+        ints = [[int(x) for x in r] for r in rng.integers(-levels, levels + 1, (V, dim))]
         dt = ["float64", "float64", "float32", "int64", "int16"][int(rng.integers(0, 5))]
         scale = 1
         if dt.startswith("float") and rng.random() < 0.4:
-            data = data / 4.0
-            scale = 4
-        cases.append((V, E, data, scale, dt, "random"))
+            scale = 4          # the integers are 4 * value: quarter-dyadic field values
+        cases.append((V, E, ints, scale, dt, "random"))
+    # every dtype: unsigned / signed integers of every width, bool, 0/1 fields, values at the ends of the range
+    path3 = [(0, 1), (1, 0), (1, 2), (2, 1)]
+    for dt in ("uint8", "int8", "uint32"):
+        ii = np.iinfo(dt)
+        pal = [0, 1, ii.max] if ii.min == 0 else [ii.min, 0, ii.max]
+        for vals in itertools.product(pal, repeat=3):
+            cases.append((3, path3, [[v] for v in vals], 1, dt, "dtype-path3"))
+    for vals in itertools.product([0, 1], repeat=3):
+        cases.append((3, path3, [[v] for v in vals], 1, "bool", "dtype-path3"))
+    ndt = ck.n(160, 900)
+    for k in range(ndt):
+        V = int(rng.integers(2, 9))
+        dens = rng.choice([0.25, 0.5])
+        E = []
+        for a in range(V):
+            for b in range(a + 1, V):
+                if rng.random() < dens:
+                    E += [(a, b), (b, a)]
+        if k % 4 == 1 and E:
+            E = [e for e in E if rng.random() < 0.7]
+        if k % 4 == 2:
+            E = list(dict.fromkeys(E + [(i, (i + 1) % V) for i in range(V)] + [((i + 1) % V, i) for i in range(V)]))
+        dt = (INT_DTYPES + ["bool", "float32"])[k % 10]
+        dim = int(rng.integers(1, 3))
+        if dt == "float32":
+            pal = [-2 ** 24, -1, 0, 1, 2 ** 24]
+        elif k % 3 == 0 and dt != "bool":
+            pal = [0, 1]                      # bool-like 0/1 field in a numeric dtype
+        else:
+            pal = dtype_palette(dt)
+        ints = [[int(pal[int(j)]) for j in r] for r in rng.integers(0, len(pal), (V, dim))]
+        cases.append((V, E, ints, 1, dt, "dtype"))
 
     n_lat = 0
-    for (V, E, data, scale, dt, origin) in cases:
+    n_dtind = 0
+    for (V, E, ints, scale, dt, origin) in cases:
+        data, dataf = mk_data(ints, scale, dt)
         dim = data.shape[1]
         kind = graph_kind(V, E)
-        ck.count(("morph", V, tuple(E), data.tobytes(), dt), nontrivial=len(E) > 0, bucket="morph:%s:%s:%s" % (origin, dt, kind))
-        rp = {"V": V, "edges": [list(e) for e in E], "field": data.tolist(), "dtype": dt}
-        cols = [to_scaled(data[:, d], scale) for d in range(dim)]
-        nit = 1 if origin == "exhaustive" else int(rng.integers(1, 3))
+        dk = dtype_kind(dt)
+        ck.count(("morph", V, tuple(E), repr(ints), scale, dt), nontrivial=len(E) > 0, bucket="morph:%s:%s:%s" % (origin, dt, kind))
+        rp = {"V": V, "edges": [list(e) for e in E], "field_times_scale": ints, "scale": scale, "dtype": dt}
+        cols = [[r[d] for r in ints] for d in range(dim)]
+        nit = 1 if origin in ("exhaustive", "dtype-path3") else int(rng.integers(1, 3))
 
         def run(op, *a, **kw):
-            F = mk_field(Field, V, E, data.astype(dt).copy())
+            src = kw.pop("_src", data)
+            F = mk_field(Field, V, E, src.copy())
             try:
                 getattr(F, op)(*a, **kw)
             except ValueError:
                 return None
+            except Exception as e:  # noqa
+                return "raises %s" % type(e).__name__
             out = np.asarray(F.field)
             if out.shape != (V, dim):
                 return "shape%s" % (out.shape,)
+            if out.dtype != src.dtype:
+                ck.fail("%s/result-dtype-changed/%s" % (op, dtype_kind(src.dtype)), "%s on a %s field returns dtype %s (V=%d edges=%s field*%d=%s)" % (op, src.dtype, out.dtype, V, E, scale, ints),
+                        dict(rp, op=op, result_dtype=str(out.dtype)))
             return [to_scaled(out[:, d], scale) for d in range(dim)]
 
         fast = run("dilation", nit)                    # compiled path iff float64
@@ -566,14 +642,14 @@ def morphology_section(ck):
             exp = [d_dilate(V, E, c) for c in exp]
         for name, got in (("compiled-or-default", fast), ("generic", slow)):
             if got != exp:
-                ck.fail("dilation/neighbourhood-max/%s-path" % name, "dilation(%d) [%s path, dtype %s] on V=%d edges=%s field=%s gives %s, max over N(i)+{i} is %s" % (nit, name, dt, V, E, data.tolist(), got, exp),
+                ck.fail("dilation/neighbourhood-max/%s-path" % name, "dilation(%d) [%s path, dtype %s] on V=%d edges=%s field=%s gives %s, max over N(i)+{i} is %s" % (nit, name, dt, V, E, ints, got, exp),
                         dict(rp, nbiter=nit, got=got, expected=exp))
         if fast != slow:
-            ck.fail("dilation/fast-vs-generic", "compiled and generic dilation differ on V=%d edges=%s field=%s: %s vs %s" % (V, E, data.tolist(), fast, slow), dict(rp, fast=fast, generic=slow))
-        if pyx_dilation is not None and E:
-            F = mk_field(Field, V, E, data.astype(float).copy())
+            ck.fail("dilation/fast-vs-generic", "compiled and generic dilation differ on V=%d edges=%s field=%s: %s vs %s" % (V, E, ints, fast, slow), dict(rp, fast=fast, generic=slow))
+        if pyx_dilation is not None and E and dataf is not None:
+            F = mk_field(Field, V, E, dataf.copy())
             idx, neighb, _ = F.compact_neighb()
-            fld = data.astype(float).copy()
+            fld = dataf.copy()
             try:
                 for _ in range(nit):
                     pyx_dilation(fld, idx, neighb)
@@ -581,14 +657,22 @@ def morphology_section(ck):
             except Exception as e:  # noqa
                 got = "raises %s" % type(e).__name__
             if got != exp:
-                ck.fail("dilation/pyx-source-vs-definition", "_graph.pyx (executed from source) on V=%d edges=%s field=%s gives %s, expected %s" % (V, E, data.tolist(), got, exp), dict(rp, got=got, expected=exp))
+                ck.fail("dilation/pyx-source-vs-definition", "_graph.pyx (executed from source) on V=%d edges=%s field=%s gives %s, expected %s" % (V, E, ints, got, exp), dict(rp, got=got, expected=exp))
         ero = run("erosion", nit)
         opn = run("opening", nit)
         cls = run("closing", nit)
+        # dtype independence: the same numbers as float64 must give the same result
+        if dt != "float64" and dataf is not None:
+            n_dtind += 1
+            for nm, got, args, kw in (("dilation", fast, (nit,), {}), ("erosion", ero, (nit,), {}), ("opening", opn, (nit,), {}), ("closing", cls, (nit,), {})):
+                ref = run(nm, *args, _src=dataf, **kw)
+                if got != ref:
+                    ck.fail("%s/dtype-dependent-result/%s" % (nm, dk), "%s(%d) on V=%d edges=%s gives %s for the %s field %s but %s for the same numbers as float64" % (nm, nit, V, E, got, dt, ints, ref),
+                            dict(rp, op=nm, nbiter=nit, got=got, float64_result=ref))
         hns = []
         nbs = d_nbrs(V, E, True)
         for d in range(dim):
-            F = mk_field(Field, V, E, data.astype(dt).copy())
+            F = mk_field(Field, V, E, data.copy())
             try:
                 hn = as_list(F.highest_neighbor(d))
             except IndexError:
@@ -596,7 +680,7 @@ def morphology_section(ck):
             ehn = [max(nbs[i], key=lambda j: (cols[d][j], -j)) for i in range(V)]
             if hn != ehn:
                 sig = "highest_neighbor/argmax-over-closed-neighbourhood" if dim == 1 else "highest_neighbor/ignores-refdim/multi-dim-field"
-                ck.fail(sig, "highest_neighbor(refdim=%d) on V=%d edges=%s field=%s gives %s expected %s" % (d, V, E, data.tolist(), hn, ehn), dict(rp, refdim=d, got=hn, expected=ehn))
+                ck.fail(sig, "highest_neighbor(refdim=%d) on V=%d edges=%s field=%s gives %s expected %s" % (d, V, E, ints, hn, ehn), dict(rp, refdim=d, got=hn, expected=ehn))
             hns.append(hn if isinstance(hn, list) else None)
         # erosion / opening / closing must not raise
         out_empty = any(not any(a == i for a, b in E) for i in range(V))
@@ -618,7 +702,7 @@ def morphology_section(ck):
                     "dilation(%d, fast=False) V=%d edges=%s column %s: impl %s" % (nit, V, E, col, slow[d]), dict(rp, column=d, nbiter=nit, impl=slow[d]))
             for nm, got in (("erosion", ero), ("opening", opn), ("closing", cls)):
                 if isinstance(got, str):
-                    ck.fail("%s/output-shape" % nm, "%s on V=%d edges=%s: %s" % (nm, V, E, got), rp)
+                    ck.fail("%s/raises-or-wrong-shape/%s" % (nm, dk), "%s on V=%d edges=%s %s field*%d=%s: %s" % (nm, V, E, dt, scale, ints, got), rp)
                     continue
                 if got is None:
                     continue      # raised: reported above
@@ -646,7 +730,7 @@ def morphology_section(ck):
                 ck.fail("closing/decreases-field", "closing on V=%d edges=%s field=%s gives %s below the field" % (V, E, cols, cls), dict(rp, got=cls))
             for nm, once in (("opening", opn), ("closing", cls)):
                 if isinstance(once, list):
-                    F = mk_field(Field, V, E, data.astype(dt).copy())
+                    F = mk_field(Field, V, E, data.copy())
                     try:
                         getattr(F, nm)(nit)
                         getattr(F, nm)(nit)
@@ -662,7 +746,7 @@ def morphology_section(ck):
     if F.field.ravel().tolist() != [0.0, 1.0, 1.0]:
         ck.fail("opening/increases-field/erosion-excludes-vertex", "opening of [0,5,1] on the path 0-1-2 gives %s (self-inclusive erosion gives [0,1,1])" % F.field.ravel().tolist(),
                 {"V": 3, "edges": [[0, 1], [1, 0], [1, 2], [2, 1]], "field": [0, 5, 1]})
-    ck.section("morphology", cases=len(cases), lattice_cases=n_lat, model_terms=len(terms), pyx_source_executed=pyx_err is None)
+    ck.section("morphology", cases=len(cases), lattice_cases=n_lat, dtype_independence_cases=n_dtind, model_terms=len(terms), pyx_source_executed=pyx_err is None)
     if ck.build is not None and ck.build.ok:
         res = ck.coq_bools(HDR, terms, name="morph")
         ck.cov["traces_validated_against_impl"] += len(res)
@@ -686,7 +770,7 @@ def levelsets_section(ck):
                     E += [(a, b), (b, a)]
         levels = int(rng.choice([1, 2, 4, 30]))
         dim = 1 if k % 4 else int(rng.integers(2, 4))
-        data = rng.integers(0, levels + 1, (V, dim)).astype(float)
+        data = rng.integers(-levels if k % 2 else 0, levels + 1, (V, dim)).astype(float)   # every other case has negative values (basin maxima <= 0)
         refdim = int(rng.integers(0, dim))
         col = [int(x) for x in data[:, refdim]]
         vals = sorted(set(col))
@@ -844,7 +928,84 @@ def levelsets_section(ck):
             if S.V != len(kept) or gedges != eedges or not np.array_equal(np.asarray(S.field), data[valid]):
                 ck.fail("subfield/restriction-and-renumbering", "subfield(valid=%s) on V=%d edges=%s: V=%d edges=%s field=%s" % (valid.tolist(), V, E, S.V, gedges, np.asarray(S.field).tolist()),
                         dict(rp, valid=valid.tolist(), got_edges=gedges, expected_edges=eedges))
-    ck.section("levelsets", cases=n)
+    # ---- dtype independence: unsigned / signed / bool / float32 fields, values at the ends of the range
+    nd = ck.n(100, 600)
+    for k in range(nd):
+        V = int(rng.integers(2, 9))
+        E = []
+        for a in range(V):
+            for b in range(a + 1, V):
+                if rng.random() < 0.4:
+                    E += [(a, b), (b, a)]
+        if k % 2:
+            E = list(dict.fromkeys(E + [(i, (i + 1) % V) for i in range(V)] + [((i + 1) % V, i) for i in range(V)]))
+        dt = ["uint8", "uint16", "uint32", "int8", "int16", "int32", "bool", "float32", "uint64", "int64"][k % 10]
+        if dt in ("uint64", "int64"):
+            pal = [0, 1, 2, 5, 2 ** 40]
+        elif dt == "float32":
+            pal = [-2 ** 24, -1, 0, 1, 2 ** 24]
+        elif k % 3 == 0 and dt != "bool":
+            pal = [0, 1]
+        else:
+            pal = dtype_palette(dt)
+        col = [int(pal[int(j)]) for j in rng.integers(0, len(pal), V)]
+        data = np.array(col, dtype=dt).reshape(V, 1)
+        dataf = np.array(col, dtype=np.float64).reshape(V, 1)
+        vals = sorted(set(col))
+        th = -np.inf if k % 3 else float(vals[int(rng.integers(0, len(vals)))])
+        above = [c >= th for c in col]
+        nb = d_nbrs(V, E, False)
+        dk = dtype_kind(dt)
+        rp = {"V": V, "edges": [list(e) for e in E], "field": col, "dtype": dt, "th": th}
+        ck.count(("level-dtype", V, tuple(E), tuple(col), dt, th), nontrivial=len(E) > 0, bucket="levelsets-dtype:%s" % dt)
+
+        # threshold_bifurcations visits the vertices in argsort order: its numbering is only determined when the values are
+        # pairwise distinct (the order of ties is an unspecified, dtype-dependent property of np.argsort), so it gets its own field
+        if dt == "bool":
+            cold = col
+        else:
+            lo, hi = ((-2 ** 24, 2 ** 24) if dt == "float32" else (0, 2 ** 40) if dt in ("uint64", "int64") else (int(np.iinfo(dt).min), int(np.iinfo(dt).max)))
+            pool = sorted(set(pal))
+            while len(pool) < V + 2:
+                x = int(rng.integers(lo, hi, endpoint=True))
+                if x not in pool:
+                    pool.append(x)
+            cold = [int(pool[int(j)]) for j in rng.permutation(len(pool))[:V]]
+        fields = {"ties": (data, dataf, col),
+                  "distinct": (np.array(cold, dtype=dt).reshape(V, 1), np.array(cold, dtype=np.float64).reshape(V, 1), cold)}
+
+        def call(name, src):
+            F = mk_field(Field, V, E, src.copy())
+            try:
+                r = getattr(F, name)(0, th)
+            except Exception as e:  # noqa
+                return "raises %s" % type(e).__name__
+            return [as_list(x) for x in r] if isinstance(r, tuple) else as_list(r)
+
+        for name in ("local_maxima", "get_local_maxima", "custom_watershed", "threshold_bifurcations"):
+            data, dataf, col = fields["distinct" if name == "threshold_bifurcations" else "ties"]
+            rp["field"] = col
+            got, ref = call(name, data), call(name, dataf)
+            if name == "threshold_bifurcations" and len(set(col)) != len(col) and not isinstance(got, str):
+                continue      # bool field with ties: numbering not determined
+            if got != ref:
+                sig = "%s/dtype-dependent-result/%s" % (name, dk)
+                tmin = 0 if dt == "bool" else (int(np.iinfo(dt).min) if np.dtype(dt).kind in "iu" else None)
+                if name == "threshold_bifurcations" and (dk == "bool" or (dk == "unsigned" and any(col)) or (dk == "signed" and tmin in col)):
+                    # `np.argsort(- initial_field)`: the negation wraps (unsigned, signed minimum) or raises (bool)
+                    sig = "threshold_bifurcations/sorts-by-negated-field/negation-wraps-or-raises-for-dtype"
+                elif (name in ("custom_watershed", "threshold_bifurcations") and isinstance(got, list) and isinstance(ref, list) and got[1:] == ref[1:]
+                      and len(got[0]) == len(ref[0]) and all(col[r] == tmin for g, r in zip(got[0], ref[0]) if g != r)):
+                    # `ma.array(field, mask=...).argmax()` fills masked entries with the dtype minimum: ties with a basin whose maximum is that minimum
+                    sig = "%s/idx-masked-argmax/basin-maximum-is-dtype-minimum" % name
+                ck.fail(sig, "%s(th=%s) on V=%d edges=%s gives %s for the %s field %s but %s for the same numbers as float64" % (name, th, V, E, got, dt, col, ref),
+                        dict(rp, fn=name, got=got, float64_result=ref))
+            if name == "local_maxima" and isinstance(got, list):
+                ismax = [above[i] and not any(above[j] and col[j] > col[i] for j in nb[i]) for i in range(V)]
+                if [x > 0 for x in got] != ismax:
+                    ck.fail("local_maxima/depth-positive-iff-no-higher-neighbour/%s-dtype" % dk, "local_maxima(th=%s) on V=%d edges=%s %s field %s gives %s; local maxima are %s" % (th, V, E, dt, col, got, ismax),
+                            dict(rp, got=got, expected_maxima=ismax))
+    ck.section("levelsets", cases=n, dtype_cases=nd)
 
 
 def run(ck):
